@@ -611,7 +611,15 @@ class Machine(Interp):
             m = self.repo.module(o.modname)
             return self.lookup_global(name, m, node)
         if isinstance(o, ExtRef):
-            return ExtRef(o.dotted + "." + name)
+            from . import lib
+
+            full = o.dotted + "." + name
+            if full in lib.CONSTANTS:
+                return lib.CONSTANTS[full](self)
+            if full in lib.REMOVED_IN_NUMPY2:
+                self.assumption_notes.add("lib:numpy -- version 2.x semantics: %s does not exist (AttributeError)" % full)
+                raise PyRaise("AttributeError", node, msg=full)
+            return ExtRef(full)
         if isinstance(o, ExtObj):
             if o.kind == "specdata":
                 return ExtObj("specdata", {"value": getattr(o.data["value"], name)})
